@@ -10,8 +10,10 @@
       (emptiness, drift, static drift, single-/multi-node consolidation), commands left in flight, environment steps injected
       during the 15 s validation wait; every command that starts is judged by G_C05_StartWithinBudget."""
 import collections
+import concurrent.futures as cf
 import json
 import os
+import threading
 
 import vlib
 from checks import budgets_common as bc
@@ -21,9 +23,12 @@ WEAK = {
     "Budgets_WeakStartExcl.cfg": "Inv_C05_HalfOpen",
     "Budgets_WeakFloor.cfg": "Inv_C05_Ceil",
     "Budgets_WeakEmptyNone.cfg": "Inv_C05_EmptyListsNone",
+    "Budgets_Pct_WeakFloor.cfg": "Inv_C05_Ceil",
 }
 WEAK_ROUNDS = ["BudgetRounds_Weak_nodecrement.cfg", "BudgetRounds_Weak_norevalidate.cfg", "BudgetRounds_Weak_ignorenotready.cfg"]
-PAR = {"quick": 4, "thorough": 8}
+PAR = {"quick": 8, "thorough": 8}
+FILES = []      # trace files of all levels; validated together at the end (one TLC process per file)
+LOCK = threading.Lock()
 MAXINT = 2147483647
 
 # concrete placements of the abstract horizon (see harness/drivers/budgets/unit.go: Variant):
@@ -94,9 +99,10 @@ def replay_unit(run, cases, tag, variants):
                 # non-trivial: the real code's answer restricts the pool, or a schedule window was evaluated
                 if ev["must"] < MAXINT or any(b["cron"] != "-" for b in ev["budgets"]):
                     keys[cur] = True
-    for i in range(len(cases)):
-        run.note_case((tag, i), keys.get(i, False))
-    run.validate("Budgets_Trace", "Budgets_Trace.cfg", out["files"], par=PAR[run.tier])
+    with LOCK:
+        for i in range(len(cases)):
+            run.note_case((tag, i), keys.get(i, False))
+    FILES.extend(out["files"])
     run.extra_cov["unit_cases"] = run.extra_cov.get("unit_cases", 0) + len(cases)
     byfam = run.extra_cov.setdefault("unit_calls_by_family", {})
     for k, v in fams.items():
@@ -104,12 +110,16 @@ def replay_unit(run, cases, tag, variants):
     run.extra_cov["unit_observations"] = out["observations"]
 
 
-def unit_level(run):
-    cases = run.generate("Budgets", "Budgets_Gen.cfg", workers=1, timeout=900)
-    if not cases:
+def unit_level(run, cases, pct_cases):
+    if not cases or not pct_cases:
         raise vlib.InfraError("TLC generated no Budgets cases")
     replay_unit(run, cases, "unit", VARIANTS[run.tier])
-    run.samples += [cases[0], cases[len(cases) // 2], cases[-1]]
+    # the percentage grid: one pure call per case, a single placement
+    replay_unit(run, pct_cases, "unit-pct", {"*": [V0]})
+    boundary = sum(1 for c in pct_cases if (c["budgets"][0]["val"] * c["n"]) % 100 in (0, 1, 99))
+    run.extra_cov["percentage_grid"] = {"percentages": "0..100", "pool_sizes": sorted({c["n"] for c in pct_cases}),
+                                        "cases": len(pct_cases), "rounding_boundary_cases(pct*n mod 100 in {0,1,99})": boundary}
+    run.samples += [cases[0], cases[len(cases) // 2], pct_cases[len(pct_cases) // 3]]
     if run.tier == "thorough":
         for name, day, crons in X_PLACEMENTS:
             unit_calendar(run, name, day, crons)
@@ -135,7 +145,7 @@ def unit_calendar(run, name, day, crons):
         "CONSTANTS Horizon <- X_Horizon  Schedules <- X_Schedules  Durations <- X_Durations",
         "          Percents = {50}  Counts = {0}  Sizes = {10}  Reasons <- MC_Reasons",
         "          ListAlphabet <- X_ListAlphabet  ListInstants <- X_ListInstants",
-        "          BadCrons = {}  BadNodes = {}  NoHitCrons = {}",
+        "          BadCrons = {}  BadNodes = {}  NoHitCrons = {}  PctSizes = {}",
         "SPECIFICATION CaseSpec", "INVARIANTS GenPrint Inv_C05_HalfOpen Inv_C05_UpperBound Inv_C05_Attained"])
     open(os.path.join(run.specdir, mod + ".cfg"), "w").write(cfg + "\n")
     cases = [c for c in run.generate(mod, mod + ".cfg", workers=1, timeout=900) if c["fam"] in ("W", "L")]
@@ -153,11 +163,27 @@ NSIM_MAP = {"quick": [("S1", 60, True), ("S2", 40, False)],
 DEPTH = 14
 
 
-def mapping_level(run):
-    behs = []
-    for name, num, env_all in NSIM_MAP[run.tier]:
-        sc = bc.with_hits(run, bc.SCENARIOS[name])
-        behs += bc.mapping_behaviours(sc, bc.simulate(run, name, sc, num, DEPTH, env_all=env_all), name)
+def simulate_all(run, pool, want_map, want_rounds):
+    """All TLC simulations of the round model, concurrently. Returns (mapping behaviours, round behaviours)."""
+    scs = {}
+    for name in sorted({n for n, _, _ in (NSIM_MAP[run.tier] if want_map else []) + (NSIM_R[run.tier] if want_rounds else [])}):
+        scs[name] = bc.with_hits(run, bc.SCENARIOS[name])
+    mf = [(name, pool.submit(bc.simulate, run, name, scs[name], num, DEPTH, env_all))
+          for name, num, env_all in (NSIM_MAP[run.tier] if want_map else [])]
+    rf = [(name, systematic, pool.submit(bc.simulate, run, name + "x", scs[name], num, 20, False, 8))
+          for name, num, systematic in (NSIM_R[run.tier] if want_rounds else [])]
+    mbehs, rbehs = [], []
+    for name, f in mf:
+        mbehs += bc.mapping_behaviours(scs[name], f.result(), name)
+    for name, systematic, f in rf:
+        sc = scs[name]
+        rbehs += bc.round_behaviours(sc, f.result(), name + ":tlc-sim")
+        # quick tier: the secondary scenarios get the two environment actions that shrink a budget during the wait
+        rbehs += bc.systematic_rounds(sc, name) if systematic else bc.systematic_rounds(sc, name, ["NotReady", "DeleteClaim"], [])
+    return mbehs, rbehs
+
+
+def mapping_level(run, behs):
     bpath = os.path.join(run.work, "budget-map-behs.json")
     json.dump(behs, open(bpath, "w"))
     out = json.loads(run.drv("budgets-map", ["-in", bpath, "-out", os.path.join(run.work, "traces-map"), "-shards", 8]))
@@ -177,9 +203,10 @@ def mapping_level(run):
                     if p["res"] < MAXINT and dis:
                         nontriv[cur] = True
                         subtracting += 1
-    for i in range(len(behs)):
-        run.note_case(("map", i), nontriv.get(i, False))
-    run.validate("Budgets_Trace", "Budgets_Trace.cfg", out["files"], par=PAR[run.tier])
+    with LOCK:
+        for i in range(len(behs)):
+            run.note_case(("map", i), nontriv.get(i, False))
+    FILES.extend(out["files"])
     run.extra_cov["mapping_behaviours"] = len(behs)
     run.extra_cov["mapping_observations"] = nmaps
     run.extra_cov["mapping_pool_results_with_subtraction"] = subtracting
@@ -193,14 +220,7 @@ NSIM_R = {"quick": [("S1", 50, True), ("S4", 20, False), ("S5", 12, False)],
           "thorough": [("S1", 500, True), ("S2", 300, True), ("S3", 300, True), ("S4", 200, True), ("S5", 200, True)]}
 
 
-def rounds_level(run):
-    behs = []
-    for name, num, systematic in NSIM_R[run.tier]:
-        sc = bc.with_hits(run, bc.SCENARIOS[name])
-        hs = bc.simulate(run, name + "x", sc, num, 20, env_all=False, max_rounds=8)
-        behs += bc.round_behaviours(sc, hs, name + ":tlc-sim")
-        # quick tier: the second scenario gets the two environment actions that shrink a budget during the wait
-        behs += bc.systematic_rounds(sc, name) if systematic else bc.systematic_rounds(sc, name, ["NotReady", "DeleteClaim"], [])
+def rounds_level(run, behs):
     bpath = os.path.join(run.work, "budget-round-behs.json")
     json.dump(behs, open(bpath, "w"))
     out = json.loads(run.drv("budgets-rounds", ["-in", bpath, "-out", os.path.join(run.work, "traces-rounds"), "-shards", 8]))
@@ -223,9 +243,10 @@ def rounds_level(run):
                 errors += 1
             elif ev["e"] == "Step" and ev["during"] and ev["applied"]:
                 during += 1
-    for i in range(len(behs)):
-        run.note_case(("round", i), has_start.get(i, False))
-    run.validate("Budgets_Trace", "Budgets_Trace.cfg", out["files"], par=PAR[run.tier])
+    with LOCK:
+        for i in range(len(behs)):
+            run.note_case(("round", i), has_start.get(i, False))
+    FILES.extend(out["files"])
     run.extra_cov["round_behaviours"] = len(behs)
     run.extra_cov["round_behaviours_with_a_start"] = sum(1 for v in has_start.values() if v)
     run.extra_cov["commands_started_by_method_reason"] = dict(starts)
@@ -239,72 +260,134 @@ def rounds_level(run):
 
 
 # ---------------------------------------------------------------------------------------------- the check
-def closed_models(run, only):
+def never_taken(r):
+    """Actions with count 0 in TLC's FINAL coverage report (with -coverage 1 TLC also prints interim reports every
+    minute of a long run, in which actions not yet reached show 0)."""
+    import re
+    txt = r.stdout
+    k = txt.rfind("The coverage statistics at")
+    if k >= 0:
+        txt = txt[k:]
+    return [m.group(1) for m in re.finditer(r"^<(\w+) line \d+, col \d+ to line \d+, col \d+ of module \w+>: \d+:(\d+)$", txt, re.M)
+            if int(m.group(2)) == 0 and m.group(1) != "Init"]
+
+
+def account(run, module, cfg, r, must_hold=True):
+    """What Run.closed_model records, for a TLC result obtained on a worker thread."""
+    run.states += r.distinct
+    run.transitions += r.generated
+    run.models.append({"module": module, "cfg": cfg, "distinct": r.distinct, "generated": r.generated,
+                       "depth": r.depth, "wall_s": round(r.wall, 1), "violated": r.violated})
+    if must_hold and not r.ok:
+        raise vlib.InfraError("closed model %s/%s does not satisfy its invariants (%s)" % (module, cfg, r.violated))
+
+
+def closed_model_jobs(run, pool, only):
+    """Submit every TLC job on the closed models (they are independent); returns a function that collects them."""
+    thorough = run.tier == "thorough"
+    futs = {}
     if only in ("", "unit"):
-        r = run.closed_model("Budgets", "Budgets_MC.cfg", workers=4, heap="4g", coverage=True)
-        if r.coverage_zero:
-            raise vlib.InfraError("vacuous closed model, actions never taken: %s" % r.coverage_zero)
-        for cfg, inv in WEAK.items():
-            weak = run.tlc("Budgets", cfg, workers=2, heap="2g", expect_violation=True)
-            if weak.violated != inv:
-                raise vlib.InfraError("spec mutation %s not rejected by TLC with %s (got %s)" % (cfg, inv, weak.violated))
-        run.notes.append("spec mutations rejected by TLC: " + ", ".join("%s -> %s" % kv for kv in WEAK.items()))
+        futs["mc"] = pool.submit(run.tlc, "Budgets", "Budgets_MC.cfg", workers=4, heap="4g", coverage=True)
+        futs["pct"] = pool.submit(run.tlc, "Budgets", "Budgets_Pct_MC.cfg", workers=2, heap="2g", coverage=True)
+        for cfg in WEAK:
+            futs[cfg] = pool.submit(run.tlc, "Budgets", cfg, workers=1, heap="2g", expect_violation=True)
     if only in ("", "map", "rounds"):
         # rounds: every Start within budget in every interleaving (quick: 2 rounds; thorough: 3 rounds, with coverage)
         cfg = open(os.path.join(run.specdir, "BudgetRounds_MC.cfg")).read()
-        if run.tier == "quick":
+        if not thorough:
             cfg = cfg.replace("MaxRounds = 3", "MaxRounds = 2")
         open(os.path.join(run.specdir, "BudgetRounds_MC_run.cfg"), "w").write(cfg)
-        thorough = run.tier == "thorough"
-        r = run.closed_model("BudgetRounds", "BudgetRounds_MC_run.cfg", workers=8 if thorough else 6, heap="4g",
-                             coverage=thorough, timeout=1500)
-        if r.coverage_zero:
-            raise vlib.InfraError("vacuous round model, actions never taken: %s" % r.coverage_zero)
-        if thorough:
-            run.closed_model("BudgetRounds", "BudgetRounds_MC2.cfg", workers=8, heap="4g", timeout=1500)
+        futs["rounds"] = pool.submit(run.tlc, "BudgetRounds", "BudgetRounds_MC_run.cfg", workers=8 if thorough else 6, heap="4g",
+                                     coverage=thorough, timeout=1500)
         for wcfg in WEAK_ROUNDS:
-            weak = run.tlc("BudgetRounds", wcfg, workers=2, heap="2g", expect_violation=True)
-            if weak.violated != "Inv_C05_StartWithinBudget":
-                raise vlib.InfraError("spec mutation %s not rejected by TLC (got %s)" % (wcfg, weak.violated))
-        run.notes.append("round-model mutations rejected by TLC with Inv_C05_StartWithinBudget: " + ", ".join(WEAK_ROUNDS))
+            futs[wcfg] = pool.submit(run.tlc, "BudgetRounds", wcfg, workers=1, heap="2g", expect_violation=True)
         if thorough:
+            futs["rounds2"] = pool.submit(run.tlc, "BudgetRounds", "BudgetRounds_MC2.cfg", workers=8, heap="4g", timeout=1500)
             # beyond the exhaustive bound: every environment action on every node, 5 rounds - random deep behaviours of the
             # closed model checked against the same invariants (a failure here is a model problem: exit 2)
             big = cfg.replace("EnvOf <- MC_EnvOf", "EnvOf <- MC_EnvAll").replace("MaxRounds = 3", "MaxRounds = 5")
             open(os.path.join(run.specdir, "BudgetRounds_MCbig_run.cfg"), "w").write(big)
-            r = run.tlc("BudgetRounds", "BudgetRounds_MCbig_run.cfg", workers=4, heap="3g", simulate="num=4000", depth=50,
-                        timeout=900)
+            futs["big"] = pool.submit(run.tlc, "BudgetRounds", "BudgetRounds_MCbig_run.cfg", workers=4, heap="3g",
+                                      simulate="num=4000", depth=50, timeout=900)
+
+    def collect():
+        if "mc" in futs:
+            for key, cfg in (("mc", "Budgets_MC.cfg"), ("pct", "Budgets_Pct_MC.cfg")):
+                r = futs[key].result()
+                account(run, "Budgets", cfg, r)
+                if never_taken(r):
+                    raise vlib.InfraError("vacuous closed model %s, actions never taken: %s" % (cfg, never_taken(r)))
+            for cfg, inv in WEAK.items():
+                weak = futs[cfg].result()
+                if weak.violated != inv:
+                    raise vlib.InfraError("spec mutation %s not rejected by TLC with %s (got %s)" % (cfg, inv, weak.violated))
+            run.notes.append("spec mutations rejected by TLC: " + ", ".join("%s -> %s" % kv for kv in WEAK.items()))
+        if "rounds" in futs:
+            r = futs["rounds"].result()
+            account(run, "BudgetRounds", "BudgetRounds_MC_run.cfg", r)
+            if never_taken(r):
+                raise vlib.InfraError("vacuous round model, actions never taken: %s" % never_taken(r))
+            for wcfg in WEAK_ROUNDS:
+                weak = futs[wcfg].result()
+                if weak.violated != "Inv_C05_StartWithinBudget":
+                    raise vlib.InfraError("spec mutation %s not rejected by TLC (got %s)" % (wcfg, weak.violated))
+            run.notes.append("round-model mutations rejected by TLC with Inv_C05_StartWithinBudget: " + ", ".join(WEAK_ROUNDS))
+        if "rounds2" in futs:
+            account(run, "BudgetRounds", "BudgetRounds_MC2.cfg", futs["rounds2"].result())
+            r = futs["big"].result()
             if not r.ok:
                 raise vlib.InfraError("round model (all environment actions, simulation) violates %s" % r.violated)
             run.models.append({"module": "BudgetRounds", "cfg": "MC with every environment action on every node, 5 rounds "
                                "(simulation, 4000 behaviours of depth 50)", "generated": r.generated, "violated": r.violated,
                                "wall_s": round(r.wall, 1)})
+    return collect
 
 
 def check(run):
     run.rule = ("(i) TLC enumerates the whole case space of Budgets.tla (W window edges h-1s,h,h+d-1s,h+d,h+d+1s x schedules x "
-                "durations; V values x pool sizes 0..12; R reason lists absent/empty/each/several; L lists of 2-3 budgets with "
-                "overlapping windows; M malformed entries; N under-determined entries); each case is replayed on the real "
-                "functions at several concrete placements (date, sub-second offset, clock zone). (ii) TLC simulations of "
-                "BudgetRounds.tla (environment: launch/register/initialize/readiness/deletions/termination/clock; queue marks) are "
-                "replayed on a world whose cluster state is fed by the real informer controllers and "
+                "durations; V values x pool sizes 0..12; P EVERY percentage 0..100 x pool sizes 0..30 and the sizes that make "
+                "pct*n/100 integral or nearly so, up to 21474835; R reason lists absent/empty/each/several; L lists of 2-3 budgets "
+                "with overlapping windows; M malformed entries; N under-determined entries); each case is replayed on the real "
+                "functions (window families at several concrete placements: date, sub-second offset, clock zone). (ii) TLC "
+                "simulations of BudgetRounds.tla (environment: launch/register/initialize/readiness/deletions/termination/clock; "
+                "queue marks) are replayed on a world whose cluster state is fed by the real informer controllers and "
                 "BuildDisruptionBudgetMapping is observed after every step for every reason. (iii) the same clusters with the real "
                 "disruption controller running the rounds (TLC-simulated stimuli + systematic placement of every environment "
                 "action before a round / during its validation wait / around every window edge). Non-trivial = (i) the answer "
                 "restricts the pool or a window is evaluated, (ii) a bounded result with not-ready/marked/deleting nodes to "
                 "subtract, (iii) the real controller started at least one command")
     only = os.environ.get("C05_ONLY", "")
-    closed_models(run, only)
-    if only in ("", "unit"):
-        unit_level(run)
-    if only in ("", "map"):
-        mapping_level(run)
-    if only in ("", "rounds"):
-        rounds_level(run)
+    del FILES[:]
+    # independent TLC jobs, the harness build and the drivers run concurrently (Run.tlc / Run.drv are thread-safe)
+    with cf.ThreadPoolExecutor(max_workers=24) as pool:
+        build = pool.submit(run.build_drv)
+        collect = closed_model_jobs(run, pool, only)
+        gen = pct = None
+        if only in ("", "unit"):
+            gen = pool.submit(run.generate, "Budgets", "Budgets_Gen.cfg", workers=1, timeout=900)
+            pct = pool.submit(run.generate, "Budgets", "Budgets_PctGen.cfg", workers=1, timeout=900)
+        build.result()
+        mbehs, rbehs = simulate_all(run, pool, only in ("", "map"), only in ("", "rounds"))
+        levels = []
+        if gen is not None:
+            levels.append(pool.submit(unit_level, run, gen.result(), pct.result()))
+        if only in ("", "map"):
+            levels.append(pool.submit(mapping_level, run, mbehs))
+        if only in ("", "rounds"):
+            levels.append(pool.submit(rounds_level, run, rbehs))
+        for f in levels:
+            f.result()
+        collect()
+    run.validate("Budgets_Trace", "Budgets_Trace.cfg", sorted(FILES), par=PAR[run.tier])
     run.exhaustive = only == ""
-    run.extra_cov["exhaustive_scope"] = ("the case space of Budgets.tla (part i) is enumerated completely; "
-                                         "mapping and round levels are sampled")
+    run.extra_cov["exhaustive_scope"] = ("the case space of Budgets.tla (part i, including the full percentage grid) is enumerated "
+                                         "completely; mapping and round levels are sampled")
     run.extra_cov["crd_schema_notes"] = CRD_NOTES
+    run.extra_cov["integer_range_note"] = (
+        "TLC integers and the Json module are 32-bit: the grid's largest pool size is 21474835 (100*n+99 must not overflow) and "
+        "results up to 2147483647 are representable; counts beyond 2^31-1 (nodes: \"2147483648\" is admitted by the CRD pattern "
+        "[0-9]+ and wraps negative in intstr.FromInt -> the pool is closed) cannot be judged by the trace spec and are listed "
+        "under unit_observations only")
     run.assumptions += [
         "robfig/cron is trusted: hit sets are obtained by stepping the library's Next from a fixed start; the model's abstract "
         "schedules are cross-checked against them (a disagreement is exit 2)",
